@@ -187,3 +187,37 @@ package fsm
 //@   ensures[network] result == nil ==> tx.NetworkId == s.NetworkID && tx.ChainId == s.Config.ChainId
 //@   ensures[notindexed] result == nil && s.height >= 2 && txHash != "" ==> !txIndexed(s.store, txHash)
 //@   ensures[window] result == nil && s.height >= 2 && tx.Memo != RLPV2Indicator ==> tx.CreatedHeight <= s.height + BlockAcceptanceRange && tx.CreatedHeight + BlockAcceptanceRange >= s.height
+
+// ---- C07: a failed transaction leaves no trace -----------------------------------------------------------
+//@ func (*StateMachine).Store
+//@   pure
+//@   ensures[getter] result == s.store
+//@ func (*StateMachine).SetStore
+//@   modifies obj(s)
+//@   ensures[set] s.store == store
+//@   ensures[only] unchanged(s.slashTracker, s.cache, s.events, s.height)
+// every cache is dropped: account and pool caches are new empty maps, parameter caches are nil
+//@ func (*StateMachine).ResetCaches
+//@   ensures[params] s.cache.valParams == nil && s.cache.feeParams == nil && s.cache.rootDexBatch == nil && s.cache.liveValidators == nil && s.cache.sharedValidatorSet == 0
+//@   ensures[accounts] fresh(s.cache.accounts) && (forall k uint64 :: !indom(s.cache.accounts, k))
+//@   ensures[pools] fresh(s.cache.pools) && (forall k uint64 :: !indom(s.cache.pools, k))
+//@   ensures[only] unchanged(s.store, s.slashTracker, s.events, s.cache)
+// wrapping installs a new nested transaction as the working store and hands it back
+//@ func (*StateMachine).TxnWrap
+//@   trusted
+//@   modifies obj(s)
+//@   ensures isnil(result1) ==> s.store == result0 && !isnil(result0) && fresh(result0)
+//@   ensures unchanged(s.slashTracker, s.cache, s.events)
+//@ func (*SlashTracker).Clone
+//@   trusted
+//@   pure
+//@   ensures s != nil ==> result != nil && fresh(result)
+
+// In the main loop of ApplyTransactions, when applying a transaction fails, by the end of that
+// iteration: the working store is again the store the iteration started with (the nested
+// transaction holding the partial writes is dropped, never flushed), every FSM cache is dropped,
+// the per-transaction events are cleared and the slash tracker is the pre-transaction clone.
+//@ func (*StateMachine).ApplyTransactions
+//@   callsite Flush requires[onlysuccess] isnil(e)
+//@   loop 4 iterensures[store] !isnil(currentStore) ==> s.store == currentStore
+//@   loop 4 iterensures[restored] !isnil(currentStore) && !isnil(e) ==> s.slashTracker == preTxSlashTracker && s.cache.valParams == nil && s.cache.feeParams == nil && (forall k uint64 :: !indom(s.cache.accounts, k)) && (forall k uint64 :: !indom(s.cache.pools, k)) && (s.events != nil ==> s.events.Events == nil)
